@@ -637,8 +637,8 @@ def r_fill(E):
                     frames.add(n.targets[0].id)
                 # a list of frames, and the parameters of a folding lambda over it: reduce(lambda a, b: a.add(b, …), frames)
                 if isinstance(n, ast.Assign) and len(n.targets) == 1 and isinstance(n.targets[0], ast.Name) \
-                        and isinstance(n.value, (ast.ListComp, ast.List)):
-                    elts = [n.value.elt] if isinstance(n.value, ast.ListComp) else n.value.elts
+                        and isinstance(n.value, (ast.ListComp, ast.GeneratorExp, ast.List)):
+                    elts = [n.value.elt] if isinstance(n.value, (ast.ListComp, ast.GeneratorExp)) else n.value.elts
                     if elts and all(_is_frame(e, frames) for e in elts):
                         lists_of_frames.add(n.targets[0].id)
                 if isinstance(n, ast.Call) and norm(n.func) in ("reduce", "functools.reduce") and len(n.args) >= 2 \
@@ -886,6 +886,13 @@ def r_summary(E):
             if s["returns_self"] and cls != "EmptyExplainableObject" and len(ret_self) != len(rets):
                 res.findings.append(Finding("R-SUMMARY", f"{where} returns-self",
                                             f"{where} no longer returns self on every path", path, fn.lineno, where))
+            if not s["returns_self"] and ret_self and s["inplace"] is None:
+                res.findings.append(Finding(
+                    "R-SUMMARY", f"{where} returns self",
+                    f"{where} has a return path that hands back `self` where a new object is expected: a rule that assigns "
+                    f"`x.{name}()` to its attribute then installs the very object another attribute holds — it is "
+                    f"re-labelled and re-attached under the new name, drops out of the first attribute's place in the "
+                    f"dependency graph and is never recomputed there", path, ret_self[0].lineno, where))
             if want_inplace and stores:
                 # every return path passes through the store: no early `return self` that skips the conversion
                 st_nodes = [n for n, who in _stores_into_value(fn)]
